@@ -1,5 +1,6 @@
 import XmppModel.Model.Close
 import XmppModel.Model.CloseProbe
+import XmppModel.Model.CloseFraming
 import XmppModel.Lemmas.Close
 import XmppModel.Lemmas.CloseEnv
 import XmppModel.Generated.C10
@@ -1158,5 +1159,126 @@ theorem C10_cached_bit_unlocked_shutdown_leaks_tokens :
 read then fails -/
 example : (RdLts.run true false RdLts.init [.hAcquire, .hRead, .sStep, .sStep, .sStep, .hRead]) =
     ⟨true, some .h, .holding false, .done, 1, false⟩ := by decide
+
+/-! ### Round E: the framing of the stream (`internal/stream/stream.go`: `Send`, `Close`, `Reader`)
+
+"The closing stream tag" is the closing element of the framing the stream header was written in:
+`</stream:stream>` on TCP, `<close xmlns="urn:ietf:params:xml:ns:xmpp-framing"/>` with the
+WebSocket subprotocol; "the peer closes its stream" is the closing element of that framing
+arriving.  `Framing.run` maps every concrete event to the event of the history machine it is for
+a session of framing `f`, so every `Hist` theorem holds for every framing; these theorems add
+which element is written and which peer event ends `Serve`. -/
+
+open Framing in
+/-- `intstream.Close` after `intstream.Send`: the closing element is the one of the header's framing -/
+theorem C10_framing_close_elem (f : Fr) : closeElem (sendName true f) = f := by cases f <;> rfl
+
+open Framing in
+theorem framing_closeCount (records : Bool) (f : Fr) (w : List Hist.Item) :
+    Framing.closeCount (w.map (render records f)) = Hist.closeCount w := by
+  unfold Framing.closeCount Hist.closeCount
+  rw [List.filter_map, List.length_map]
+  congr 1
+  apply List.filter_congr
+  intro x _
+  cases x <;> rfl
+
+open Framing in
+theorem framing_countOf_own (f : Fr) (w : List Hist.Item) :
+    countOf f (w.map (render true f)) = Hist.closeCount w := by
+  unfold countOf Hist.closeCount
+  rw [List.filter_map, List.length_map]
+  congr 1
+  apply List.filter_congr
+  intro x _
+  cases x <;> cases f <;> rfl
+
+open Framing in
+/-- **idempotent, in every framing, every history** (any order and multiplicity of `Close`,
+transmit calls, peer stanzas, handler errors, the peer's closing element of EITHER framing …): at
+most one closing element of either framing reaches the connection, and it is never the closing
+element of the other framing. -/
+theorem C10_framed_close_once (serve : Bool) (f : Fr) (ops : List Framing.Op) :
+    Framing.closeCount (wire true f (Framing.run true f (Hist.init serve) ops).1) ≤ 1 ∧
+    ∀ g, Tag.close g ∈ wire true f (Framing.run true f (Hist.init serve) ops).1 → g = f := by
+  constructor
+  · unfold wire Framing.run
+    rw [framing_closeCount]
+    exact C10_hist_close_once serve _
+  · intro g hg
+    unfold wire at hg
+    obtain ⟨it, _, hit⟩ := List.mem_map.mp hg
+    cases it with
+    | el => simp [render] at hit
+    | close =>
+      simp only [render, C10_framing_close_elem] at hit
+      injection hit with h
+      exact h.symm
+
+open Framing in
+/-- … and exactly one closing element OF THE STREAM'S FRAMING after any `Close`, whatever
+precedes and follows it -/
+theorem C10_framed_close_exactly_once (serve : Bool) (f : Fr) (ops1 ops2 : List Framing.Op) :
+    countOf f (wire true f (Framing.run true f (Hist.init serve) (ops1 ++ .base .close :: ops2)).1) = 1 := by
+  unfold wire Framing.run
+  rw [framing_countOf_own, List.map_append, List.map_cons]
+  exact C10_hist_close_exactly_once serve _ _
+
+open Framing in
+/-- which concrete peer events are "the peer closes its stream" for a session of framing `f`:
+the closing element of that framing, and no other -/
+theorem C10_framed_peer_close_is_own_framing (f : Fr) (op : Framing.Op) :
+    tr true f op = .peerClose ↔ (op = .base .peerClose ∨ op = .peerEnds f) := by
+  cases op with
+  | base o => simp [tr]
+  | peerEnds g => cases f <;> cases g <;> simp [tr, peerEnd]
+
+open Framing in
+/-- **`Serve` returns nil only when the peer closed its stream in the stream's framing**, every
+history: the closing element of the other framing never ends `Serve` cleanly (on TCP it is an
+element for the handler, with the WebSocket subprotocol `</stream:stream>` is not well-formed) -/
+theorem C10_framed_serve_nil_only_on_own_close (serve : Bool) (f : Fr) (ops : List Framing.Op)
+    (h : (Framing.run true f (Hist.init serve) ops).1.serve = .nil_) :
+    ∃ op ∈ ops, op = .base .peerClose ∨ op = .peerEnds f := by
+  obtain ⟨pre, post, he, _, _⟩ := (C10_serve_nil_iff_peer_close serve _).mp h
+  have hm : Hist.Op.peerClose ∈ ops.map (tr true f) := by rw [he]; simp
+  obtain ⟨op, hop, htr⟩ := List.mem_map.mp hm
+  exact ⟨op, hop, (C10_framed_peer_close_is_own_framing f op).mp htr⟩
+
+/-- non-vacuity / the positive direction on the shortest history, both framings: the closing
+element of the own framing ends `Serve` with nil, both directions closed, own closing element
+written once; the other framing's does not -/
+example : ∀ f : Framing.Fr,
+    (Framing.run true f (Hist.init true) [.peerEnds f]).1.serve = .nil_ ∧
+    Framing.wire true f (Framing.run true f (Hist.init true) [.peerEnds f]).1 = [.close f] := by
+  intro f; cases f <;> decide
+example : (Framing.run true .tcp (Hist.init true) [.peerEnds .ws]).1.serve = .running ∧
+    (Framing.run true .ws (Hist.init true) [.peerEnds .tcp]).1.serve = .garbage := by decide
+
+/-- NOT the code any more (negation witness, the defect repaired by `fix: a WebSocket session is
+closed with </stream:stream> instead of <close/>`): `Send` not recording the framing — `Close` on
+a WebSocket session writes the TCP closing tag -/
+theorem C10_ws_closed_with_tcp_tag_unrecorded :
+    Framing.wire false .ws (Framing.run true .ws (Hist.init true) [.base .close]).1 = [.close .tcp] := by decide
+
+/-- NOT the code any more (negation witness, `fix: sessions negotiated with the WebSocket
+subprotocol are not marked as such …`): on an unmarked session the peer's `<close/>` is handed to
+the handler and `Serve` keeps running -/
+theorem C10_ws_peer_close_ignored_unmarked :
+    (Framing.run false .ws (Hist.init true) [.peerEnds .ws]).1.serve = .running := by decide
+
+/-- **probe fact**: real sessions negotiated by `xmpp.NewNegotiator` and `websocket.Negotiator`
+in the initiating and in the receiving role × eight closing paths (`Close`, twice, the peer's
+closing element of either framing with `Serve` running, then `Close`, a handler error, `Close`
+before the peer's own closing element): closing elements of either framing the connection saw,
+`Serve`'s result, both closed bits — equal to the table the model computes (which does not depend
+on the role). -/
+theorem C10_probe_framing_close :
+    Generated.C10.framingCloseProbe = some (Framing.probeTable true true) := by decide
+
+/-- the probe tells the repaired code from both defective shapes -/
+theorem C10_probe_framing_old_shapes_differ :
+    Framing.probeTable false true ≠ Framing.probeTable true true ∧
+    Framing.probeTable true false ≠ Framing.probeTable true true := by decide
 
 end XmppModel.Props.C10
